@@ -42,6 +42,7 @@ import (
 	"github.com/semihalev/sdns/internal/metric"
 	"github.com/semihalev/sdns/internal/wire"
 	"github.com/semihalev/sdns/middleware"
+	"github.com/semihalev/sdns/middleware/cache"
 	"github.com/semihalev/sdns/middleware/defaults"
 	"github.com/semihalev/sdns/middleware/edns"
 )
@@ -136,7 +137,8 @@ func (j *vC05PlainJob) WriteMsg(m *dns.Msg) error {
 // ---------------------------------------------------------------- scripted stub resolver
 
 type vC05Stub struct {
-	log *[]string
+	log   *[]string
+	epoch *int // the scripted universe's validation epoch: signed names validate (AD) in even epochs only
 }
 
 func (vC05Stub) Name() string { return "verif-c05-stub" }
@@ -176,7 +178,7 @@ func vC05SignedNX(name string) bool {
 }
 
 // the universe: behaviour is a function of the first label (lower-cased)
-func vC05Respond(req *dns.Msg) *dns.Msg {
+func vC05Respond(req *dns.Msg, epoch int) *dns.Msg {
 	q := req.Question[0]
 	name := strings.ToLower(q.Name)
 	first := name
@@ -200,6 +202,10 @@ func vC05Respond(req *dns.Msg) *dns.Msg {
 	if strings.HasSuffix(first, "1") {
 		ttl = 3600
 	}
+	if strings.HasSuffix(first, "2") {
+		ttl = 5 // the cache's floor: gone after a small clock advance
+	}
+	secure := epoch%2 == 0
 	nodata := func() {
 		resp.Ns = []dns.RR{vC05SOA(vC05Zone, ttl)}
 	}
@@ -230,7 +236,7 @@ func vC05Respond(req *dns.Msg) *dns.Msg {
 			nodata()
 		}
 	case "ca": // alias-only answers: the cache has to chase
-		next := map[string]string{"ca0": "cb0", "cb0": "cc0", "cc0": "pos0", "ca1": "pos1", "ca2": "nx0", "ca3": "sf0"}[first]
+		next := map[string]string{"ca0": "cb0", "cb0": "cc0", "cc0": "pos0", "ca1": "pos2", "ca2": "nx0", "ca3": "sf0", "ca4": "big0"}[first]
 		if next == "" {
 			next = "pos0"
 		}
@@ -252,7 +258,7 @@ func vC05Respond(req *dns.Msg) *dns.Msg {
 			resp.Answer = []dns.RR{vC05CNAME(q.Name, "cfm."+vC05Zone, ttl)}
 		}
 	case "sig": // signed, validated; sig1 behaves like a forwarder's upstream: AD whatever CD says
-		resp.AuthenticatedData = !req.CheckingDisabled || strings.HasSuffix(first, "1")
+		resp.AuthenticatedData = secure && (!req.CheckingDisabled || strings.HasSuffix(first, "1"))
 		if q.Qtype == dns.TypeA {
 			resp.Answer = []dns.RR{vC05A(q.Name, ttl, idx), vC05RRSIG(q.Name, dns.TypeA, ttl)}
 		} else if q.Qtype == dns.TypeRRSIG {
@@ -262,14 +268,18 @@ func vC05Respond(req *dns.Msg) *dns.Msg {
 				&dns.NSEC{Hdr: dns.RR_Header{Name: q.Name, Rrtype: dns.TypeNSEC, Class: dns.ClassINET, Ttl: 60}, NextDomain: "sih." + vC05Zone, TypeBitMap: []uint16{dns.TypeA, dns.TypeRRSIG, dns.TypeNSEC}},
 				vC05RRSIG(q.Name, dns.TypeNSEC, 60)}
 		}
-	case "sc": // signed alias, target signed
-		resp.AuthenticatedData = !req.CheckingDisabled
-		resp.Answer = []dns.RR{vC05CNAME(q.Name, "sig0."+vC05Zone, ttl), vC05RRSIG(q.Name, dns.TypeCNAME, ttl)}
+	case "sc": // signed alias, target signed; sc1 is long-lived and points at the short-lived sig2
+		resp.AuthenticatedData = secure && !req.CheckingDisabled
+		target := "sig0."
+		if first == "sc1" {
+			target = "sig2."
+		}
+		resp.Answer = []dns.RR{vC05CNAME(q.Name, target+vC05Zone, ttl), vC05RRSIG(q.Name, dns.TypeCNAME, ttl)}
 	case "nx":
 		resp.Rcode = dns.RcodeNameError
 		resp.Ns = []dns.RR{vC05SOA(vC05Zone, ttl)}
 		if vC05SignedNX(name) {
-			resp.AuthenticatedData = !req.CheckingDisabled
+			resp.AuthenticatedData = secure && !req.CheckingDisabled
 			resp.Ns = append(resp.Ns, vC05RRSIG(vC05Zone, dns.TypeSOA, ttl),
 				&dns.NSEC{Hdr: dns.RR_Header{Name: "nw." + vC05Zone, Rrtype: dns.TypeNSEC, Class: dns.ClassINET, Ttl: 60}, NextDomain: "ny." + vC05Zone, TypeBitMap: []uint16{dns.TypeA, dns.TypeRRSIG, dns.TypeNSEC}},
 				vC05RRSIG("nw."+vC05Zone, dns.TypeNSEC, 60),
@@ -341,8 +351,12 @@ func (s vC05Stub) ServeDNS(ctx context.Context, ch *middleware.Chain) {
 		}
 		*s.log = append(*s.log, line)
 	}
-	resp := vC05Respond(req)
-	if name := strings.ToLower(req.Question[0].Name); resp.Rcode == dns.RcodeNameError && vC05SignedNX(name) && !req.CheckingDisabled {
+	epoch := 0
+	if s.epoch != nil {
+		epoch = *s.epoch
+	}
+	resp := vC05Respond(req, epoch)
+	if name := strings.ToLower(req.Question[0].Name); resp.Rcode == dns.RcodeNameError && vC05SignedNX(name) && !req.CheckingDisabled && epoch%2 == 0 {
 		middleware.MarkValidatedNegativeProofResponse(ctx, resp, middleware.ValidatedNegativeProof{
 			Subject: "nx1." + vC05Zone, Zone: vC05Zone, Kind: middleware.ValidatedNegativeProofNSEC, Aggressive: true,
 		})
@@ -413,8 +427,32 @@ func vC05Config(t vC05Toggles, hostsPath string) *config.Config {
 }
 
 type vC05Server struct {
-	s   *Server
-	log []string
+	s     *Server
+	log   []string
+	epoch int
+	total time.Duration // virtual clock advance so far
+}
+
+// wait for background refreshes started by the last packet (cache.VC05PrefetchIdle)
+func (vs *vC05Server) settle() bool {
+	if vs.s == nil || vs.s.pipeline == nil {
+		return true
+	}
+	if c, ok := vs.s.pipeline.Get("cache").(*cache.Cache); ok {
+		return cache.VC05PrefetchIdle(c, 2*time.Second)
+	}
+	return true
+}
+
+// advance the server's virtual clock (cache.VC05Shift, overlay export hook)
+func (vs *vC05Server) shift(d time.Duration) {
+	vs.total += d
+	if vs.s == nil || vs.s.pipeline == nil {
+		return
+	}
+	if c, ok := vs.s.pipeline.Get("cache").(*cache.Cache); ok {
+		cache.VC05Shift(c, d, vs.total)
+	}
 }
 
 func vC05NewServer(t vC05Toggles, hostsPath string) *vC05Server {
@@ -425,7 +463,7 @@ func vC05NewServer(t vC05Toggles, hostsPath string) *vC05Server {
 	} else {
 		defaults.RegisterUpTo("resolver")
 	}
-	middleware.Register("verif-c05-stub", func(*config.Config) middleware.Handler { return vC05Stub{log: &vs.log} })
+	middleware.Register("verif-c05-stub", func(*config.Config) middleware.Handler { return vC05Stub{log: &vs.log, epoch: &vs.epoch} })
 	cfg := vC05Config(t, hostsPath)
 	middleware.Setup(cfg)
 	vs.s = New(cfg)
@@ -708,7 +746,7 @@ func vC05Opt(code int, data []byte) []byte {
 }
 
 var vC05Names = []string{
-	"pos0", "pos1", "pos2", "mx0", "ca0", "ca1", "ca2", "ca3", "cb0", "cc0", "cf0", "cf1", "sig0", "sig1", "sc0",
+	"pos0", "pos1", "pos2", "mx0", "ca0", "ca1", "ca2", "ca3", "ca4", "cb0", "cc0", "cf0", "cf1", "sig0", "sig1", "sig2", "sc0", "sc1",
 	"nx0", "nx1", "a.nx0", "a.nx1", "b.a.nx1", "nd0", "nd1", "ede0", "ede1", "big0", "big1", "sf0", "sf1", "a.sf0", "nxf0", "nxf1", "ref0", "hosts0", "hosts1", "zz0",
 }
 
@@ -1003,12 +1041,15 @@ type vC05Step struct {
 	tag   string
 	ip    net.IP
 	probe bool
+	ctl   string        // "" = a packet; "shift" = advance the virtual clock by d; "epoch" = the zone's validation status flips
+	d     time.Duration
 }
 
 type vC05StepObs struct {
 	w, m       []string // abstract replies
 	wLog, mLog string   // what the stub saw during this step
 	route      string   // which byte-path outcome counters moved on the wire-path server (coverage only)
+	unsettled  bool     // a background refresh did not finish in time: the rest of the history is not comparable
 }
 
 // the cache's byte-path outcome counters, read from the default registry (coverage only)
@@ -1059,7 +1100,22 @@ func vC05RunScenario(t vC05Toggles, hostsPath string, steps []vC05Step) []vC05St
 	}
 	// --- wire side
 	sw := vC05NewServer(t, hostsPath)
+	ctl := func(vs *vC05Server, st vC05Step) bool {
+		switch st.ctl {
+		case "shift":
+			vs.shift(st.d)
+		case "epoch":
+			vs.epoch++
+		default:
+			return false
+		}
+		return true
+	}
 	for i, st := range steps {
+		if ctl(sw, st) {
+			out[i].w = []string{"ctl", "", "", "", "", "", ""}
+			continue
+		}
 		if engine(st) {
 			out[i].w = []string{"engine", "", "", "", "", "", ""}
 			continue
@@ -1101,6 +1157,9 @@ func vC05RunScenario(t vC05Toggles, hostsPath string, steps []vC05Step) []vC05St
 				out[i].route = "decoded"
 			}
 		}
+		if t.prefetch && !sw.settle() {
+			out[i].unsettled = true
+		}
 		out[i].wLog = strings.Join(sw.log, "\n")
 	}
 	sw.stop()
@@ -1110,12 +1169,15 @@ func vC05RunScenario(t vC05Toggles, hostsPath string, steps []vC05Step) []vC05St
 	// --- message side
 	sm := vC05NewServer(t, hostsPath)
 	for i, st := range steps {
-		if engine(st) {
+		if ctl(sm, st) || engine(st) {
 			out[i].m = out[i].w
 			continue
 		}
 		sm.log = sm.log[:0]
 		out[i].m = viaMsg(sm, st)
+		if t.prefetch && !sm.settle() {
+			out[i].unsettled = true
+		}
 		out[i].mLog = strings.Join(sm.log, "\n")
 	}
 	sm.stop()
@@ -1343,6 +1405,62 @@ func TestVerifC05Differential(t *testing.T) {
 		}
 		scriptedSteps = append(scriptedSteps, steps)
 	}
+	// second batch, with packet sizes, clock advances and validation-status flips
+	scriptedTg := make([]vC05Toggles, 0, len(scripted)+32)
+	for _, sc := range scripted {
+		scriptedTg = append(scriptedTg, sc.tg)
+	}
+	pk := func(name string, qt, flags int, do, opt bool, size int) vC05Step {
+		q := &vC05Query{id: 2000 + g.r.Intn(1000), name: name + "." + vC05Zone, qtype: qt, qclass: 1, flags: flags, opt: opt, size: size, do: do}
+		return vC05Step{raw: q.pack(g), tag: fmt.Sprintf("scripted %s/%d flags=%#x do=%v opt=%v size=%d", q.name, qt, flags, do, opt, size), ip: net.IPv4(203, 0, 113, 41)}
+	}
+	sh := func(sec int) vC05Step {
+		return vC05Step{ctl: "shift", d: time.Duration(sec) * time.Second, tag: fmt.Sprintf("clock +%ds", sec)}
+	}
+	ep := func() vC05Step { return vC05Step{ctl: "epoch", tag: "validation status flips"} }
+	add2 := func(tg vC05Toggles, steps ...vC05Step) {
+		scriptedTg = append(scriptedTg, tg)
+		scriptedSteps = append(scriptedSteps, steps)
+	}
+	// per-entry limiter x oversized cached answers x advertised sizes x single pass / inline+replay x UDP/TCP:
+	// a hit that cannot be served from bytes must cost exactly the token the decoded path charges
+	for _, v := range []struct {
+		rate        int
+		inline, tcp bool
+	}{{1, true, false}, {1, false, false}, {1, true, true}, {2, true, false}} {
+		tg := vC05Toggles{entryRate: v.rate, inline: v.inline, tcp: v.tcp}
+		add2(tg, pk("big0", 16, 0x0100, false, true, 4096), pk("big0", 16, 0x0100, false, true, 512), pk("big0", 16, 0x0100, false, true, 512),
+			pk("big0", 16, 0x0100, false, true, 4096), pk("big0", 16, 0x0100, false, false, 0),
+			pk("big1", 1, 0x0100, false, false, 0), pk("big1", 1, 0x0100, false, false, 0), pk("big1", 1, 0x0100, false, true, 1232),
+			pk("pos0", 1, 0x0100, false, true, 1232), pk("pos0", 1, 0x0100, false, true, 1232), pk("pos0", 1, 0x0100, false, true, 1232))
+	}
+	add2(vC05Toggles{entryRate: 1, inline: true}, pk("ca4", 16, 0x0100, false, true, 4096), pk("big0", 16, 0x0100, false, true, 4096), pk("ca4", 16, 0x0100, false, true, 512), pk("ca4", 16, 0x0100, false, true, 4096))
+	add2(vC05Toggles{entryRate: 1, inline: true}, pk("sig0", 1, 0x0100, true, true, 1232), pk("sig0", 1, 0x0100, false, true, 1232), pk("sig0", 1, 0x0100, true, true, 1232))
+	add2(vC05Toggles{entryRate: 1, inline: true}, pk("ede0", 1, 0x0100, false, true, 1232), pk("ede0", 1, 0x0100, false, false, 0), pk("nd0", 1, 0x0100, false, true, 1232), pk("nd0", 1, 0x0100, false, true, 1232))
+	// alias chains whose legs are re-admitted with another validation verdict or lifetime after the
+	// alias itself was admitted: expiry of the short-lived target, status flip, re-admission, then the
+	// alias asked by clients that are shown AD (DO / AD bit) and by one that is not
+	for _, inline := range []bool{false, true} {
+		for _, first := range []int{0, 1} {
+			var pre []vC05Step
+			if first == 1 {
+				pre = append(pre, ep()) // start insecure, turn secure later
+			}
+			tg := vC05Toggles{inline: inline}
+			add2(tg, append(pre, pk("sc1", 1, 0x0100, true, true, 1232), pk("sig2", 1, 0x0100, true, true, 1232), pk("sc1", 1, 0x0100, true, true, 1232),
+				sh(7), ep(), pk("sig2", 1, 0x0100, true, true, 1232), pk("sc1", 1, 0x0100, true, true, 1232), pk("sc1", 1, 0x0120, false, false, 0),
+				pk("sc1", 1, 0x0100, false, true, 1232), pk("sc1", 1, 0x0110, true, true, 1232), sh(7), ep(), pk("sc1", 1, 0x0100, true, true, 1232),
+				pk("sig2", 1, 0x0100, true, true, 1232), pk("sc1", 1, 0x0100, true, true, 1232))...)
+			add2(tg, append(pre, pk("ca1", 1, 0x0100, false, true, 1232), pk("ca1", 1, 0x0100, false, true, 1232), sh(7), pk("ca1", 1, 0x0100, false, true, 1232),
+				pk("pos2", 1, 0x0100, false, true, 1232), pk("ca1", 1, 0x0100, false, true, 1232), sh(3), pk("ca1", 1, 0x0100, false, true, 1232), sh(3), pk("ca1", 1, 0x0100, false, true, 1232))...)
+		}
+	}
+	// everything ages: exact hits, cuts, failures and denial proofs across small and large advances
+	add2(vC05Toggles{}, pk("pos2", 1, 0x0100, false, true, 1232), pk("pos2", 1, 0x0100, false, true, 1232), sh(2), pk("pos2", 1, 0x0100, false, true, 1232), sh(2), pk("pos2", 1, 0x0100, false, true, 1232), sh(2), pk("pos2", 1, 0x0100, false, true, 1232),
+		pk("pos0", 1, 0x0100, false, true, 1232), sh(299), pk("pos0", 1, 0x0100, false, true, 1232), sh(2), pk("pos0", 1, 0x0100, false, true, 1232))
+	add2(vC05Toggles{}, pk("nx1", 1, 0x0100, true, true, 1232), pk("a.nx1", 1, 0x0100, true, true, 1232), sh(30), pk("a.nx1", 1, 0x0100, false, true, 1232), sh(40), pk("a.nx1", 1, 0x0100, false, true, 1232), pk("nxf0", 1, 0x0100, false, true, 1232),
+		pk("sf0", 1, 0x0100, false, true, 1232), pk("sf0", 1, 0x0100, false, true, 1232), sh(4), pk("sf0", 1, 0x0100, false, true, 1232), sh(10), pk("sf0", 1, 0x0100, false, true, 1232), pk("sf0", 1, 0x0100, false, true, 1232))
+	nScripted := len(scriptedSteps)
 	for budget > 0 {
 		scen++
 		tg := vC05Toggles{
@@ -1360,7 +1478,7 @@ func TestVerifC05Differential(t *testing.T) {
 			tg.clientRate = g.pick(4, 8, 20)
 		}
 		if g.r.Intn(4) == 0 {
-			tg.entryRate = g.pick(2, 3, 5)
+			tg.entryRate = g.pick(1, 1, 2, 3)
 		}
 		// history: a handful of names queried repeatedly so that cache states are reached
 		nsteps := 24 + g.r.Intn(16)
@@ -1368,7 +1486,7 @@ func TestVerifC05Differential(t *testing.T) {
 			nsteps = budget
 		}
 		families := [][]string{
-			{"pos0", "pos1"}, {"ca0", "cb0", "cc0", "pos0"}, {"ca1", "pos1"}, {"ca2", "nx0"}, {"ca3", "sf0"}, {"cf0"},
+			{"pos0", "pos1"}, {"ca0", "cb0", "cc0", "pos0"}, {"ca1", "pos2"}, {"sc1", "sig2"}, {"sc1", "sig2", "sig0"}, {"ca4", "big0"}, {"big0", "big1"}, {"ca2", "nx0"}, {"ca3", "sf0"}, {"cf0"},
 			{"sig0", "sc0"}, {"sig1"}, {"nx0", "a.nx0"}, {"nx1", "a.nx1", "b.a.nx1"}, {"nd0"}, {"ede0"}, {"big0"}, {"big1"},
 			{"sf0", "a.sf0"}, {"sf1"}, {"nxf0", "nx1"}, {"nxf0", "nx1", "nxf1"}, {"mx0"}, {"hosts0"}, {"ref0"}, {"nd1", "ede1"},
 		}
@@ -1379,6 +1497,17 @@ func TestVerifC05Differential(t *testing.T) {
 		ips := []net.IP{net.IPv4(203, 0, 113, 30), net.IPv4(203, 0, 113, 31)}
 		var steps []vC05Step
 		for i := 0; i < nsteps; i++ {
+			if i > 2 {
+				switch x := g.r.Intn(100); {
+				case x < 6:
+					d := time.Duration(g.pick(2, 4, 6, 6, 11, 301, 3601)) * time.Second
+					steps = append(steps, vC05Step{ctl: "shift", d: d, tag: "clock +" + d.String()})
+					continue
+				case x < 9:
+					steps = append(steps, vC05Step{ctl: "epoch", tag: "validation status flips"})
+					continue
+				}
+			}
 			ip := ips[0]
 			if g.r.Intn(5) == 0 {
 				ip = ips[1]
@@ -1388,6 +1517,13 @@ func TestVerifC05Differential(t *testing.T) {
 				q.name = focus[g.r.Intn(len(focus))] + "." + vC05Zone
 				if g.r.Intn(5) > 0 {
 					q.qtype = g.pick(1, 1, 1, 1, 1, 1, 28, 16, 15)
+				}
+			}
+			if strings.HasPrefix(q.name, "big") || strings.HasPrefix(q.name, "ca4") {
+				// oversized answers: the advertised size decides between a byte serve and truncation
+				if g.r.Intn(3) > 0 {
+					q.size = g.pick(512, 512, 600, 1232, 0, 4096)
+					q.opt = g.r.Intn(4) > 0
 				}
 			}
 			if strings.HasPrefix(q.name, "sig") || strings.HasPrefix(q.name, "sc") || strings.HasPrefix(q.name, "nx1") {
@@ -1418,8 +1554,8 @@ func TestVerifC05Differential(t *testing.T) {
 				steps = append(steps, vC05Step{raw: q.pack(nil), tag: "probe " + q.name, ip: net.IPv4(203, 0, 113, byte(100+len(steps)%100)), probe: true})
 			}
 		}
-		if scen <= len(scripted) {
-			tg = scripted[scen-1].tg
+		if scen <= nScripted {
+			tg = scriptedTg[scen-1]
 			steps = scriptedSteps[scen-1]
 			nsteps = len(steps)
 		}
@@ -1444,6 +1580,7 @@ func TestVerifC05Differential(t *testing.T) {
 			}
 		}
 		firstBad := -1
+		unsettled := false
 		for i, ob := range obs {
 			st := steps[i]
 			goFail := ""
@@ -1491,6 +1628,13 @@ func TestVerifC05Differential(t *testing.T) {
 					"wire": strings.Join(ob.w[:3], " ; "), "msg": strings.Join(ob.m[:3], " ; "), "history": hist},
 				"nontrivial": ob.w[0] == "reply" || ob.m[0] == "reply",
 				"go_fail":    goFail,
+			}
+			if ob.unsettled {
+				unsettled = true
+			}
+			if unsettled {
+				rec["inconclusive"] = true
+				rec["go_fail"] = ""
 			}
 			if firstBad >= 0 && i > firstBad {
 				// after a divergence the two servers are no longer identically prepared
